@@ -10,7 +10,7 @@ DEVS = ["NameManglingCollisions", "NegativeConstantUnsigned", "OctetStringLitera
 EXPECTED_ERRORS = {"NameManglingCollisions": {"E0004", "E0062", "E0119", "E0124", "E0308", "E0428", "E0592"},
                    "NegativeConstantUnsigned": {"E0600"},
                    "OctetStringLiterals": {"E0308", "macro:Invalid literal value", "macro:custom attribute panicked"},
-                   "InlineTypeNameClash": {"E0119", "E0428", "E0560", "E0609"},
+                   "InlineTypeNameClash": {"E0071", "E0119", "E0308", "E0428", "E0560", "E0609", "macro:the `Self` constructor can only be used with tuple or unit structs"},
                    "TypeNameShadowsGeneratedPath": {"*"},
                    "DefaultKindNotChecked": {"E0308", "E0412", "E0425", "macro:custom attribute panicked"}}
 
@@ -74,6 +74,16 @@ def check_min_max(v, text, code, k):
                 if bad <= 3:
                     v.violation("generated value_%s() of INTEGER (%d..%d) is %r" % (which, lb, ub, got), {"definition": m.group(0), "literal": got}, "minmax_%03d.json" % (k * 10 + bad))
     return bad
+
+
+def list_of_inline(ast):
+    """T ::= SEQUENCE OF <inline SEQUENCE / SET / CHOICE / ENUMERATED>: the element type is extracted under the name T itself."""
+    t = ast["t"]
+    if t.get("k") != "seqof":
+        return False
+    while t.get("k") == "seqof":
+        t = t["of"]
+    return t.get("k") in ("seq", "choice", "enum")
 
 
 def families(v, names_cases, grammar_cases, quick):
@@ -154,7 +164,10 @@ def families(v, names_cases, grammar_cases, quick):
     # the C07 universe (sample): must compile; definitions inside an open finding's class get a module of their own
     step = 10 if quick else 2
     sample = grammar_cases[::step]
-    plain = [c for c in sample if not neg_named_unsigned(c["ast"])]
+    plain = [c for c in sample if not neg_named_unsigned(c["ast"]) and not list_of_inline(c["ast"])]
+    for c in grammar_cases:
+        if list_of_inline(c["ast"]):
+            mods.append(("grammar-list-of-inline-type", c["ast"]["name"], asnprint.module("Gl", [c["ast"]]), "InlineTypeNameClash"))
     for c in sample:
         if neg_named_unsigned(c["ast"]):
             mods.append(("grammar-negative-named-number", c["ast"]["name"], asnprint.module("Gn", [c["ast"]]), "NegativeConstantUnsigned"))
